@@ -31,8 +31,11 @@ def queries(tier):
                         # quick tier: everything at k=2 (tables of 2 and 4 slots) + the k=4 tables of 2 and 4 slots without compaction;
                         # compact forms with >1 entry, resizes into / steps on the 8-slot table: thorough only (measured 100-900 s each)
                         in_quick = ((lgn == 1 and not (compact and (num > 1 or rf != 1)) and not rebuild) or (lgn == 2 and size <= 4 and not compact and not resize))
+                        # measured (600 s cap): ordered compact forms of >= 2 entries (std::sort on symbolic keys + vector growth) and every
+                        # rebuild() of the full 8-slot table (update with 7 entries, trim with > k entries) reach no verdict: not claimed
+                        no_verdict = (op == 3 and num >= 2) or (size == 8 and (rebuild or (op == 1 and num > (1 << lgn))))
                         for tr in ('quick', 'thorough'):
-                            if tier != tr or (tr == 'quick' and not in_quick): continue
+                            if tier != tr or (tr == 'quick' and not in_quick) or (tr == 'thorough' and no_verdict): continue
                             how = 'all' if (size <= 4 or (op == 0 and tr == 'thorough')) else 3
                             if tr == 'quick' and (compact or (op == 5 and lgn == 2)): how = 1
                             for m in masks(size, num, how):
